@@ -61,6 +61,7 @@ def restoreContent (f : FsCfg) (path : Name) : M Bytes := do
   | none => M.fail .other
 
 def writeAt (buf : Bytes) (pos : Nat) (p : Bytes) : Bytes :=
+  if p == [] then buf else
   let padded := if buf.length < pos then buf ++ List.replicate (pos - buf.length) 0 else buf
   padded.take pos ++ p ++ padded.drop (pos + p.length)
 
@@ -75,8 +76,9 @@ def enterWriteMode (f : FsCfg) (h : Handle) : M Handle := do
       | .error .noRows => pure false
       | .error e => M.fail e)
     let buf ← (if exists_ then restoreContent f h.path else pure [])
-    let buf := if h.flags.truncate then [] else buf
+    -- `Restore` leaves the cache's cursor behind what it wrote; `Truncate(0)` does not move it
     let cur := if h.flags.append then buf.length else 0
+    let buf := if h.flags.truncate then [] else buf
     pure { h with wbuf := some (buf, cur) }
 
 def hWrite (f : FsCfg) (h : Handle) (p : Bytes) : M (Handle × Nat) := do
